@@ -63,7 +63,11 @@ meta["needs"] = open(os.path.join(src, "meta.txt")).read()
 meta["ran"] = ["cargo test --workspace --no-fail-fast --offline (with change)", " ".join(dcmd) + " (with / without change)", "./check <all 19> --repo <scratch> (quick)"]
 meta["demo_direction"] = "compiles with the change, rejected by the compiler without it" if reverse else "fails with the change, passes without it"
 if reverse:
-    valid = meta["suite_with_change"]["exit"] == 0 and d1.returncode == 0 and d2.returncode != 0
+    compiles_with = "could not compile" not in d1.stderr
+    rejected_without = "could not compile" in d2.stderr and bool(re.findall(r"error\[(E\d+)\]", d2.stderr))
+    meta["demo_with_change"]["compiles"] = compiles_with
+    meta["demo_without_change"]["rejected_by_compiler"] = rejected_without
+    valid = meta["suite_with_change"]["exit"] == 0 and compiles_with and rejected_without
     meta["compiler_errors_without_change"] = sorted(set(re.findall(r"error\[(E\d+)\]", d2.stderr)))
 else:
     valid = meta["suite_with_change"]["exit"] == 0 and d1.returncode != 0 and d2.returncode == 0
